@@ -223,6 +223,17 @@ v_co_co_A: Co[Co[A]]
 v_contra_co: Contra[Co[A]]
 v_inv_co: Inv[Co[B]]
 v_contra_int: Contra[int]
+v_vt_B_sA: tuple[B, *tuple[A, ...]]
+v_vt_sA_B: tuple[*tuple[A, ...], B]
+v_vt_A_sB: tuple[A, *tuple[B, ...]]
+v_vt_sB_A: tuple[*tuple[B, ...], A]
+v_vt_B_sA_B: tuple[B, *tuple[A, ...], B]
+v_vt_sA_BB: tuple[*tuple[A, ...], B, B]
+v_tup_aa: tuple[A, A]
+v_tup_bab: tuple[B, A, B]
+v_inv_A2: Inv[A]
+v_two_aa: Two[A, A]
+v_two_bb: Two[B, B]
 v_contra_float: Contra[float]
 v_co_float: Co[float]
 v_inv_float: Inv[float]
